@@ -140,6 +140,21 @@ def check_case(case):
                 ok = np.array_equal(got, want)
             if not ok:
                 viols.append(('value:%s' % sq, '%s mode=%s squash=%r: got %s expected %s' % (describe(case), mode, sq, got.tolist(), want.tolist())))
+    # the same values in another memory layout (Fortran order / a moved-axis view) must give the same spectrum
+    if T * M * K >= 2 and not viols:
+        views = [('fortran', np.asfortranarray(infr), np.asfortranarray(infr2), np.asfortranarray(amp)),
+                 ('moveaxis', infr, np.moveaxis(np.ascontiguousarray(np.moveaxis(infr2, 0, -1)), -1, 0),
+                  np.moveaxis(np.ascontiguousarray(np.moveaxis(amp, 0, -1)), -1, 0))]
+        ref = brute(e1, e2, infr, infr2, amp, 'amplitude')
+        for name, a_, b_, c_ in views:
+            try:
+                got = np.asarray(holospectrum(a_, b_, c_, e1.copy(), e2.copy(), mode='amplitude', squash_time=False))
+            except Exception as ex:
+                viols.append(('layout:raise:%s' % type(ex).__name__, '%s %s layout raised %r' % (describe(case), name, ex)))
+                continue
+            trans += 1
+            if got.shape != ref.shape or not np.array_equal(got, ref):
+                viols.append(('layout:%s' % name, '%s: result depends on the memory layout of the inputs (%s)' % (describe(case), name)))
     cls = 'all-in' if both.all() else ('all-out' if not both.any() else 'mixed')
     return Outcome(cls=cls, transitions=trans, viols=viols, nontrivial=bool(both.any() and not both.all()))
 
